@@ -106,3 +106,68 @@ PROPS['C14'] = dict(
     level_note='Trusted: u128 reference; needs AVX512F hardware.',
     assumptions=['CPU supports AVX512F', '8-bit variants: all coefficients < 2^8'],
 )
+
+HARNESSES['h_ntt'] = dict(src='h_ntt.cpp')
+
+
+def _ntt_jobs(tag, extra_random=None, cfg='fast2', qcases=24000, tcases=600_000):
+    rnd = '%s.random' % tag + (',' + extra_random if extra_random else '')
+    return [
+        J('h_ntt', cfg, 1, 1, only='%s.enum,%s.basis' % (tag, tag), wq=16, wt=16, args=['--enumerate', '--level', '0'], tiers=['quick'], tag='enum'),
+        J('h_ntt', cfg, 1, 1, only='%s.enum,%s.basis' % (tag, tag), wq=16, wt=16, args=['--enumerate', '--level', '1'], tiers=['thorough'], tag='enum'),
+        J('h_ntt', cfg, qcases, 1, only=rnd, wq=16, args=['--level', '0'], tiers=['quick'], tag='rnd'),
+        J('h_ntt', cfg, 1, tcases, only=rnd, wt=16, args=['--level', '1'], tiers=['thorough'], tag='rnd'),
+    ]
+
+
+_NTT_RULE = ('(a) EXHAUSTIVE small scope, every case in a forked child: log maxDomain 0..5 (thorough 0..6) x log n <= log max (and size 0) x ncols {0,1,3} (thorough {0,1,2,3,5}) x '
+             'nphase {0..8,64,2^32,2^64-1} x nblock {0,1,2,3,2^64-1} (thorough {0..6,3000,2^64-1}) x dst {src,other,NULL} x buffer {NULL,caller} x nThreads {1,2,3,5,16} '
+             '(quick: rotated, thorough: full cross); plus the complete single-cell basis at every n<=64 on a reduced configuration set (linearity); '
+             '(b) rapidcheck-random configurations up to n=2^11 (thorough 2^16), ncols<=12, threads<=64, arbitrary uint64 nphase/nblock. Inputs mix canonical, non-canonical and edge representations. '
+             'Oracle: naive O(n^2) DFT for n<=64, independent recursive FFT above (validated against the naive DFT at start); exact-size heap buffers; abort/SIGSEGV of the child = failure. '
+             'Non-trivial: n<maxDomain, nphase!=3, effective nblock>1, NULL destination, caller buffer, explicit threads, size-1/no-op shapes. distinct = distinct configuration tuples (incl. data seed).')
+_NTT_CLASSES = ['cfg:n<maxDomain', 'cfg:nphase!=3', 'cfg:effective-nblock>1', 'cfg:dst=NULL', 'cfg:dst=other', 'cfg:caller-buffer', 'cfg:explicit-threads', 'cfg:n=1', 'data:basis']
+
+PROPS['C03'] = dict(
+    title='NTT computes the DFT for every size and configuration', exhaustive=False,
+    jobs=_ntt_jobs('c03'), rule=_NTT_RULE, expected_classes=_NTT_CLASSES + ['cfg:no-op(size0/ncols0)'],
+    technique='exhaustive small-scope enumeration of the configuration space + rapidcheck-random larger configurations, fork-per-case, naive-DFT / reference-FFT oracle',
+    level_text='The configuration space (sizes, phases, blocks, aliasing, buffers, threads) is enumerated completely below n=64 and sampled above; each case is checked element-wise against an independent DFT. Crashes are first-class failures. Above 2^16 rows nothing is explored.',
+    level_note='Trusted: u128 reference DFT/FFT; the primitive roots come from Goldilocks::w (checked to be a tower of primitive roots). exhaustive=false overall because the random tier and the input matrices are sampled; the small-scope configuration enumeration itself is complete.',
+    assumptions=['caller scratch buffers hold size*ncols elements', 'objects constructed with the default extension=1', 'n <= 2^16 (memory/time)'],
+)
+PROPS['C04'] = dict(
+    title='INTT is the exact inverse transform in every configuration',
+    jobs=_ntt_jobs('c04', 'c04.roundtrip', qcases=32000, tcases=800_000), rule=_NTT_RULE + ' Round trips INTT(NTT(x)) and NTT(INTT(x)) use independently drawn (nphase,nblock) for the two calls.',
+    expected_classes=_NTT_CLASSES,
+    technique='exhaustive small-scope enumeration + rapidcheck-random configurations and round trips, fork-per-case, inverse-DFT oracle',
+    level_text='Same exploration as C03 with the inverse-DFT oracle out[k] = n^-1 sum in[j] w^-jk, plus both round trips with different phase/block settings per direction.',
+    level_note='Trusted: u128 reference inverse DFT; n^-1 and w^-1 computed by Fermat exponentiation in the reference.',
+    assumptions=['caller scratch buffers hold size*ncols elements', 'n <= 2^16'],
+)
+PROPS['C05'] = dict(
+    title='extendPol is the low-degree extension onto the shifted coset',
+    jobs=_ntt_jobs('c05', qcases=16000, tcases=400_000),
+    rule='Same enumeration scheme as C03 for extendPol: log N 0..5(6), log N_ext - log N in 0..3, object domain in {N, larger}, ncols {1,3}({1,2,3,5}), all nphase/nblock values, buffer {NULL, caller N_ext*ncols}, '
+         'output == input (N_ext rows, rows >= N pre-filled with junk that must not leak) or distinct; random tier up to N_ext = 2^12 (thorough 2^17). '
+         'Oracle: coefficients by independent inverse DFT, multiplied by 7^j, zero-padded, forward reference DFT of size N_ext; cross-checked on sampled points by Horner evaluation at 7*w^k. '
+         'Non-trivial: N_ext>N, even effective phase count, nblock>1, N=1, caller buffer, explicit threads.',
+    expected_classes=['ext:N_ext>N', 'ext:N_ext==N', 'ext:even-effective-phase-count', 'ext:in-place', 'ext:distinct-output', 'cfg:effective-nblock>1', 'cfg:n=1', 'cfg:n<maxDomain'],
+    technique='exhaustive small-scope enumeration + rapidcheck-random configurations, fork-per-case, interpolate-and-evaluate (inverse DFT + coset DFT / Horner) oracle',
+    level_text='extendPol configuration space enumerated completely for N<=32(64), blow-up <= 8, and sampled above; every output element compared with the independent LDE.',
+    level_note='Trusted: u128 reference; coset shift 7 taken from the property statement.',
+    assumptions=['caller scratch buffers hold N_ext*ncols elements', 'N <= maxDomainSize of the object', 'N_ext <= 2^17'],
+)
+PROPS['C19'] = dict(
+    title='Transform objects are reusable: results depend only on the call arguments',
+    jobs=[J('h_ntt', 'fast2', 24000, 1_200_000, only='c19.history', wq=16, wt=16)],
+    rule='rapidcheck-generated call histories (1..8 calls of NTT/INTT/extendPol with sizes <= object domain 2^1..2^7, ncols 1..4, nphase/nblock from the edge sets, dst/buffer modes, '
+         'interleaved transforms of a foreign object that change the global OpenMP team size) on ONE shared object, each history in a forked child. '
+         'Oracle: the k-th output is bit-identical to the same call on a freshly constructed object and equal to the C03-C05 reference. '
+         'Non-trivial: >= 2 different (kind,size) pairs in the history; in particular two extendPol calls with different N.',
+    expected_classes=['hist:>=2-different-(kind,size)', 'hist:two-extendPol-with-different-N', 'hist:foreign-object-call'],
+    technique='rapidcheck stateful/history generation with whole-sequence shrinking, model = fresh object + DFT reference, fork-per-history',
+    level_text='Model-based history testing: thousands of generated call sequences per run, compared call by call with a fresh object (bit-identical) and the mathematical oracle.',
+    level_note='Trusted: reference DFT; histories limited to 8 calls and domains <= 2^7.',
+    assumptions=['every call size within the object maximum domain'],
+)
